@@ -89,7 +89,7 @@ func (s1 jsonSet) diff(
 		default:
 			e = DiffElement{
 				Path:   path.clone(),
-				Remove: nodeList(s1),
+				Remove: nodeList(jsonArray(s1)),
 				Add:    nodeList(n),
 			}
 		}
